@@ -35,18 +35,19 @@ USES_FIXTURES = True
 
 
 class Slot:
-    __slots__ = ("evaluated", "reported", "origin")
+    __slots__ = ("evaluated", "reported", "origin", "inner")
 
-    def __init__(self, evaluated=False, reported=True, origin=""):
+    def __init__(self, evaluated=False, reported=True, origin="", inner=False):
         self.evaluated = evaluated
         self.reported = reported
         self.origin = origin
+        self.inner = inner        # reported only to the best-individual memory of an enclosing Scope (see Walker.walk, scope)
 
     def key(self):
-        return (self.evaluated, self.reported)
+        return (self.evaluated, self.reported, self.inner)
 
     def copy(self):
-        return Slot(self.evaluated, self.reported, self.origin)
+        return Slot(self.evaluated, self.reported, self.origin, self.inner)
 
 
 def state_key(stack):
@@ -60,8 +61,23 @@ class Walker:
         self.sums = sums
         self.template = template
         self.findings = []   # (rule, instance, msg)
+        self.own_memory_depth = 0
         self.seq = 0
         self.excepted = set()
+
+    def merge_carries_best(self, mf):
+        """does the scope's merge step show the inner best-individual memory to the enclosing one (a call of BestIndividual::update
+        in the merge function)"""
+        from absint import Agg as _Agg
+        key = None
+        if isinstance(mf, _Agg) and mf.kind == "closure":
+            key = mf.name
+        elif isinstance(mf, tuple) and mf and mf[0] == "fn":
+            key = mf[1].get("key")
+        clo = self.F.fn_opt(key) if key else None
+        if clo is None:
+            return False
+        return any((t["f"].get("key") or "").endswith("BestIndividual::update") for g in self.F.with_closures(clo) for _b, t in g.body.calls())
 
     def report(self, rule, instance, msg):
         self.findings.append((rule, instance, msg))
@@ -103,10 +119,16 @@ class Walker:
                     victims = consumed if low < 0 else ns[-1:]
                     # a pure pop/push-back of the same population (evaluator, duplicate) does not destroy values
                     if not (sm.evaluates and not sm.invalidates):
+                        survivors = [o for o in ns if not any(o is v for v in victims)]
                         for s in victims:
                             if s.evaluated and not s.reported:
+                                if any(o.evaluated and o.origin == s.origin and s.origin for o in survivors):
+                                    continue      # the same values (a selection copy / its source) are still on the stack
                                 src = (s.origin or "?").split("@")[0]
-                                if (self.template.split("::")[-1], short, src) in R4_EXCEPTIONS or (self.template.split("::")[-2], short, src) in R4_EXCEPTIONS:
+                                # (a reviewed exception rests on the OTHER merged population - the search result - having been shown to the
+                                # best-update: it covers an unreported victim only while every other victim of the same merge is reported)
+                                others_reported = all(o.reported or not o.evaluated for o in victims if o is not s) and len(victims) > 1
+                                if others_reported and ((self.template.split("::")[-1], short, src) in R4_EXCEPTIONS or (self.template.split("::")[-2], short, src) in R4_EXCEPTIONS):
                                     s.reported = True   # reviewed: see R4_EXCEPTIONS
                                     self.excepted.add((short, src))
                                     continue
@@ -122,16 +144,20 @@ class Walker:
                     elif sm.evaluates:
                         ns.append(Slot(True, False, inst))
                     elif consumed and not sm.invalidates and not ty.startswith("mahf::components::recombination::") and not ty.startswith("mahf::components::initialization::"):
-                        ns.append(Slot(all(s.evaluated for s in consumed), all(s.reported for s in consumed), consumed[0].origin))
+                        ns.append(Slot(all(s.evaluated for s in consumed), all(s.reported for s in consumed), consumed[0].origin, any(s.inner for s in consumed)))
                     elif not consumed and ty.startswith("mahf::components::selection::"):
                         src = stack[-1]
-                        ns.append(Slot(src.evaluated, True, src.origin))
+                        # a copy shares its source's values: it is as (un)reported as the source; destroying one of the two while the
+                        # other is still on the stack loses nothing (see the victims check)
+                        ns.append(Slot(src.evaluated, src.reported, src.origin, src.inner))
                     else:
                         ns.append(Slot(False, True, inst))
                 if low == 0 and net == 0:
                     if sm.invalidates and ns:
                         ns[-1] = Slot(False, True, inst)
                     if sm.best_update and ns:
+                        if not ns[-1].reported and self.own_memory_depth:
+                            ns[-1].inner = True       # shown to the memory the enclosing scope's own best-update initialised
                         ns[-1].reported = True
                 if sm.evaluates and ns and not sm.invalidates and low <= 0 and net == 0:
                     ns[-1] = Slot(True, False, inst)
@@ -146,7 +172,27 @@ class Walker:
                 states = self.walk(ch, states, "%s.%d" % (pathname, i))
             return states
         if node.kind == "scope":
-            return self.walk(node.children[0], states, pathname + ".scope")
+            # a best-update inside the scope initialises a best-individual memory of the scope's own (init inserts into the current
+            # scope): what is shown to it is gone when the scope ends - unless the scope's merge step hands that memory's best to the
+            # enclosing one
+            own = any((l.ty in self.sums and self.sums[l.ty][1].best_update) for l in all_leaves(node.children[0], []))
+            carries = self.merge_carries_best(node.extra.get("merge_fn"))
+            if own and not carries:
+                self.own_memory_depth += 1
+            out = self.walk(node.children[0], states, pathname + ".scope")
+            if own and not carries:
+                self.own_memory_depth -= 1
+                if not self.own_memory_depth:
+                    res = {}
+                    for st in out.values():
+                        ns = [s.copy() for s in st]
+                        for s in ns:
+                            if s.inner:
+                                s.inner = False
+                                s.reported = not s.evaluated
+                        res[state_key(ns)] = tuple(ns)
+                    out = res
+            return out
         if node.kind == "branch":
             a = self.walk(node.children[0], dict(states), pathname + ".if")
             b = self.walk(node.children[1], dict(states), pathname + ".else") if len(node.children) > 1 else dict(states)
@@ -196,7 +242,8 @@ R4_EXCEPTIONS = {
     ("ils", "MuPlusLambda", "PopulationEvaluator"):
         "ILS: the perturbed solution is evaluated and a COPY of it (selection::All) enters an elitist (mu+lambda) local search that starts from "
         "that copy; the search result is never worse than its start and is shown to the best-update before this merge, so the unreported "
-        "value cannot be below the reported best (confirmed dynamically over 30 seeds during triage)",
+        "value cannot be below the reported best (confirmed dynamically over 30 seeds during triage).  The exception holds only while the other "
+        "merged population (the search result) IS reported at the merge",
 }
 
 
